@@ -27,6 +27,8 @@ static const char *const OTHER[] = {
 	"armed timer (+60 s) re-set to +2 ms while another timer (+4 ms) is pending",
 	"armed uptime timer (+60 s) re-set to the wall clock (+2 ms) while a wall-clock dispatch_after (+4 ms) is pending",
 	"armed wall-clock timer (+60 s) re-set to the uptime clock (+3 ms) while two uptime dispatch_after (+2 ms, +5 ms) are pending",
+	"one-shot timer (+1 ms) fires while its source is suspended, is re-set to +5 ms while still suspended, then resumed: the stale fire must be dropped",
+	"one-shot timer (+1 ms) fires while its target queue is busy with a 3 ms item, is re-set to +6 ms before the handler could run",
 };
 #define N_OTHER ((int)(sizeof(OTHER) / sizeof(OTHER[0])))
 enum { EV_ARM = EV_USER, EV_FIRE, EV_TIMER_FIRE, EV_SETTIMER, EV_RESUME };
@@ -83,6 +85,7 @@ static void mk_timer(int clock, int64_t d, uint64_t interval, uint64_t leeway, i
 	if (activate) dispatch_activate(g_ts);
 }
 static void t1_fn(void *arg) { (void)arg; arm_after(2, CK_UPTIME, 2 * (int64_t)MS); }
+static void busy_fn(void *ctx) { (void)ctx; vx_sleep_ns(3 * MS); }
 static void warm_fn(void *c) { *(int *)c = 1; }
 
 static int nvariants(void) { return N_AFTER + N_OTHER; }
@@ -139,6 +142,22 @@ static void run(int v)
 		set_timer(CK_WALL, 2 * (int64_t)MS, DISPATCH_TIME_FOREVER, 0);
 		wait_int(&g_tfires, 1); wait_int(&g_fired, 1);
 		break;
+	case 14:
+		mk_timer(CK_UPTIME, 1 * MS, DISPATCH_TIME_FOREVER, 0, 1);
+		dispatch_suspend(g_ts);
+		vx_sleep_ns(3 * MS);
+		set_timer(CK_UPTIME, 5 * (int64_t)MS, DISPATCH_TIME_FOREVER, 0);
+		vx_ev(EV_RESUME, 0, 0);
+		dispatch_resume(g_ts);
+		wait_int(&g_tfires, 1);
+		break;
+	case 15:
+		mk_timer(CK_UPTIME, 1 * MS, DISPATCH_TIME_FOREVER, 0, 1);
+		dispatch_async_f(g_q, NULL, busy_fn);     // the target queue is occupied across the deadline
+		vx_sleep_ns(2 * MS);
+		set_timer(CK_UPTIME, 6 * (int64_t)MS, DISPATCH_TIME_FOREVER, 0);
+		wait_int(&g_tfires, 1);
+		break;
 	case 13:
 		mk_timer(CK_WALL, 60000 * (int64_t)MS, DISPATCH_TIME_FOREVER, 0, 1);
 		arm_after(1, CK_UPTIME, 2 * MS); arm_after(2, CK_UPTIME, 5 * MS);
@@ -157,8 +176,8 @@ static int check(int v, const vx_log *l, char *msg, size_t len)
 {
 	uint64_t arm_vt[16]; int64_t arm_d[16]; int nfire[16], armed[16];
 	memset(arm_vt, 0, sizeof arm_vt); memset(arm_d, 0, sizeof arm_d); memset(nfire, 0, sizeof nfire); memset(armed, 0, sizeof armed);
-	static const uint64_t INTERVAL[] = { 1 * MS, 1 * MS, 0, 1 * MS, 0, 0, 0, 0, 0, 2 * MS, 0, 0, 0, 0 };
-	static const int WANT[] = { 4, 4, 0, 2, 2, 1, 1, 0, 1, 3, 1, 1, 1, 1 };
+	static const uint64_t INTERVAL[] = { 1 * MS, 1 * MS, 0, 1 * MS, 0, 0, 0, 0, 0, 2 * MS, 0, 0, 0, 0, 0, 0 };
+	static const int WANT[] = { 4, 4, 0, 2, 2, 1, 1, 0, 1, 3, 1, 1, 1, 1, 1, 1 };
 	int k = v - N_AFTER;
 	uint64_t interval = k >= 0 ? INTERVAL[k] : 0;
 	uint64_t start = 0, first_start = 0, resume_vt = 0; int nset = 0, timer_fires = 0;
